@@ -9,6 +9,7 @@
  *  xf api opt copynone op dsticc hex  tj3Transform | jcopy_markers_setup/execute (jpegtran style) -> ok <hex>
  *  Lines of other kinds (handled by the model driver only) are answered with "-".
  */
+#define _GNU_SOURCE
 #include <stdio.h>
 #include <stdlib.h>
 #include <string.h>
@@ -166,19 +167,53 @@ static void do_jc(char **f, int nf)
 }
 
 /* ------------------------------------------------------------- libjpeg read */
-static void do_rd(char **f, int nf)
+/* suspending source manager: fill_input_buffer returns FALSE; the application exposes more of the
+   file after each JPEG_SUSPENDED, keeping what the library has not consumed (its last restart point) */
+struct susp_src { struct jpeg_source_mgr pub; const unsigned char *base; size_t visible, pending_skip; };
+static void s_init(j_decompress_ptr c) { (void)c; }
+static boolean s_fill(j_decompress_ptr c) { (void)c; return FALSE; }
+static void s_term(j_decompress_ptr c) { (void)c; }
+static void s_skip(j_decompress_ptr c, long n)
 {
-  struct jpeg_decompress_struct d; struct jpeg_error_mgr je;
-  unsigned char *buf; size_t n; const char *p; int i; jpeg_saved_marker_ptr m;
+  struct susp_src *s = (struct susp_src *)c->src;
+  if (n <= 0) return;
+  if ((size_t)n > s->pub.bytes_in_buffer) {
+    s->pending_skip += (size_t)n - s->pub.bytes_in_buffer;
+    s->pub.next_input_byte += s->pub.bytes_in_buffer; s->pub.bytes_in_buffer = 0;
+  } else { s->pub.next_input_byte += n; s->pub.bytes_in_buffer -= (size_t)n; }
+}
+static void s_extend(struct susp_src *s, size_t upto)
+{
+  size_t consumed = (size_t)(s->pub.next_input_byte - s->base);
+  s->visible = upto; s->pub.bytes_in_buffer = upto - consumed;
+  if (s->pending_skip) {
+    size_t k = s->pending_skip < s->pub.bytes_in_buffer ? s->pending_skip : s->pub.bytes_in_buffer;
+    s->pub.next_input_byte += k; s->pub.bytes_in_buffer -= k; s->pending_skip -= k;
+  }
+}
+
+/* read the header of buf (one buffer when cuts == NULL, else through the suspending source with the
+   visibility schedule cuts[0] < cuts[1] < ... then everything); header line to o, restart-point offsets
+   at each suspension to offs.  Returns 0 when a header line was produced. */
+static int rd_core(FILE *o, const char *cfg, const unsigned char *buf, size_t n, const size_t *cuts, int ncuts, FILE *offs)
+{
+  struct jpeg_decompress_struct d; struct jpeg_error_mgr je; struct susp_src src;
+  const char *p; int i, rc, ci = 0; jpeg_saved_marker_ptr m;
   JOCTET *icc = NULL; unsigned int icclen = 0; int before;
-  if (nf < 3) { puts("err usage"); return; }
-  buf = unhex(f[2], &n);
   d.err = jpeg_std_error(&je); je.error_exit = my_exit; je.emit_message = my_emit; je.output_message = my_output;
   n_warn = n_bogus_icc = 0;
-  if (setjmp(jb)) { printf("err\n"); jpeg_destroy_decompress(&d); free(buf); return; }
+  if (setjmp(jb)) { fprintf(o, "err"); jpeg_destroy_decompress(&d); return 1; }
   jpeg_create_decompress(&d);
-  jpeg_mem_src(&d, buf, (unsigned long)n);
-  p = f[1];
+  if (!cuts) jpeg_mem_src(&d, buf, (unsigned long)n);
+  else {
+    memset(&src, 0, sizeof(src));
+    src.pub.init_source = s_init; src.pub.fill_input_buffer = s_fill; src.pub.skip_input_data = s_skip;
+    src.pub.resync_to_restart = jpeg_resync_to_restart; src.pub.term_source = s_term;
+    src.base = buf; src.pub.next_input_byte = buf; src.pub.bytes_in_buffer = 0;
+    d.src = &src.pub;
+    s_extend(&src, ncuts > 0 ? cuts[0] : n); ci = 1;
+  }
+  p = cfg;
   if (strcmp(p, "-")) while (*p) {
     int code = (int)strtol(p, (char **)&p, 10); unsigned lim;
     if (*p == ':') p++;
@@ -186,30 +221,87 @@ static void do_rd(char **f, int nf)
     if (*p == ',') p++;
     jpeg_save_markers(&d, code, lim);
   }
-  if (jpeg_read_header(&d, TRUE) != JPEG_HEADER_OK) { printf("err\n"); jpeg_destroy_decompress(&d); free(buf); return; }
-  printf("hdr %u %u %d flags=%d%d%d ncomp=%d comps=", d.image_width, d.image_height, d.data_precision,
-         d.progressive_mode ? 1 : 0, d.master->lossless ? 1 : 0, d.arith_code ? 1 : 0, d.num_components);
+  while ((rc = jpeg_read_header(&d, TRUE)) == JPEG_SUSPENDED) {
+    if (!cuts || src.visible >= n) { fprintf(o, "err suspended-with-all-data"); jpeg_destroy_decompress(&d); return 1; }
+    if (offs) fprintf(offs, ".%zu", (size_t)(src.pub.next_input_byte - src.base));
+    s_extend(&src, ci < ncuts ? cuts[ci] : n); ci++;
+  }
+  if (rc != JPEG_HEADER_OK) { fprintf(o, "err"); jpeg_destroy_decompress(&d); return 1; }
+  fprintf(o, "hdr %u %u %d flags=%d%d%d ncomp=%d comps=", d.image_width, d.image_height, d.data_precision,
+          d.progressive_mode ? 1 : 0, d.master->lossless ? 1 : 0, d.arith_code ? 1 : 0, d.num_components);
   for (i = 0; i < d.num_components; i++)
-    printf("%s%d.%d.%d.%d", i ? "," : "", d.comp_info[i].component_id, d.comp_info[i].h_samp_factor,
-           d.comp_info[i].v_samp_factor, d.comp_info[i].quant_tbl_no);
-  printf(" jfif=%d ver=%d.%d dens=%d.%d.%d adobe=%d tr=%d ri=%u scan=", d.saw_JFIF_marker ? 1 : 0,
-         d.saw_JFIF_marker ? d.JFIF_major_version : 1, d.saw_JFIF_marker ? d.JFIF_minor_version : 1,
-         d.density_unit, d.X_density, d.Y_density, d.saw_Adobe_marker ? 1 : 0,
-         d.saw_Adobe_marker ? d.Adobe_transform : 0, d.restart_interval);
+    fprintf(o, "%s%d.%d.%d.%d", i ? "," : "", d.comp_info[i].component_id, d.comp_info[i].h_samp_factor,
+            d.comp_info[i].v_samp_factor, d.comp_info[i].quant_tbl_no);
+  fprintf(o, " jfif=%d ver=%d.%d dens=%d.%d.%d adobe=%d tr=%d ri=%u scan=", d.saw_JFIF_marker ? 1 : 0,
+          d.saw_JFIF_marker ? d.JFIF_major_version : 1, d.saw_JFIF_marker ? d.JFIF_minor_version : 1,
+          d.density_unit, d.X_density, d.Y_density, d.saw_Adobe_marker ? 1 : 0,
+          d.saw_Adobe_marker ? d.Adobe_transform : 0, d.restart_interval);
   for (i = 0; i < d.comps_in_scan; i++)
-    printf("%s%d.%d.%d", i ? "," : "", d.cur_comp_info[i]->component_index, d.cur_comp_info[i]->dc_tbl_no,
-           d.cur_comp_info[i]->ac_tbl_no);
-  printf(";%d;%d;%d;%d cs=%d |", d.Ss, d.Se, d.Ah, d.Al, (int)d.jpeg_color_space);
+    fprintf(o, "%s%d.%d.%d", i ? "," : "", d.cur_comp_info[i]->component_index, d.cur_comp_info[i]->dc_tbl_no,
+            d.cur_comp_info[i]->ac_tbl_no);
+  fprintf(o, ";%d;%d;%d;%d cs=%d |", d.Ss, d.Se, d.Ah, d.Al, (int)d.jpeg_color_space);
   for (m = d.marker_list; m; m = m->next)
-    printf(" m %d %u %u %016llx ;", m->marker, m->original_length, m->data_length,
-           (unsigned long long)fnv(m->data, m->data_length));
+    fprintf(o, " m %d %u %u %016llx ;", m->marker, m->original_length, m->data_length,
+            (unsigned long long)fnv(m->data, m->data_length));
   before = n_bogus_icc;
   if (jpeg_read_icc_profile(&d, &icc, &icclen))
-    printf(" | icc ok %u %016llx", icclen, (unsigned long long)fnv(icc, icclen));
-  else printf(" | icc %s", n_bogus_icc > before ? "bogus" : "absent");
-  putchar('\n');
+    fprintf(o, " | icc ok %u %016llx", icclen, (unsigned long long)fnv(icc, icclen));
+  else fprintf(o, " | icc %s", n_bogus_icc > before ? "bogus" : "absent");
   free(icc);
-  jpeg_destroy_decompress(&d); free(buf);
+  jpeg_destroy_decompress(&d);
+  return 0;
+}
+
+static void do_rd(char **f, int nf)
+{
+  unsigned char *buf; size_t n;
+  if (nf < 3) { puts("err usage"); return; }
+  buf = unhex(f[2], &n);
+  rd_core(stdout, f[1], buf, n, NULL, 0, NULL);
+  putchar('\n');
+  free(buf);
+}
+
+/* rds cfg spec hex : the same header through the suspending source for many partitions.
+   spec = every:<lo>:<hi>  (one cut at each k in lo..hi)  |  pts:<k1+k2+..>/<k1+..>/...
+   output: for each partition  <label>=<S|D>:<restart offsets>   (S: same header line as with one buffer),
+   then " || <label> <line>" for the first partition that differs */
+static void do_rds(char **f, int nf)
+{
+  unsigned char *buf; size_t n; char *ref = NULL, *cur = NULL, *offs = NULL, *firstbad = NULL; size_t rl = 0, cl = 0, ol = 0;
+  FILE *fp; const char *p;
+  if (nf < 4) { puts("err usage"); return; }
+  buf = unhex(f[3], &n);
+  fp = open_memstream(&ref, &rl); rd_core(fp, f[1], buf, n, NULL, 0, NULL); fclose(fp);
+  p = f[2];
+  if (!strncmp(p, "every:", 6)) {
+    size_t lo = strtoul(p + 6, (char **)&p, 10), hi, k; if (*p == ':') p++; hi = strtoul(p, NULL, 10);
+    for (k = lo; k <= hi && k < n; k++) {
+      FILE *fo;
+      fp = open_memstream(&cur, &cl); fo = open_memstream(&offs, &ol);
+      rd_core(fp, f[1], buf, n, &k, 1, fo); fclose(fp); fclose(fo);
+      printf("%s%zu=%c:%s", k > lo ? " " : "", k, strcmp(cur, ref) ? 'D' : 'S', offs);
+      if (strcmp(cur, ref) && !firstbad) { firstbad = (char *)malloc(cl + 64); sprintf(firstbad, " || %zu %s", k, cur); }
+      free(cur); free(offs); cur = offs = NULL;
+    }
+  } else if (!strncmp(p, "pts:", 4)) {
+    int first = 1;
+    p += 4;
+    while (*p) {
+      size_t cuts[64]; int nc = 0; const char *label = p; FILE *fo; size_t ll;
+      while (*p && *p != '/') { if (nc < 64) cuts[nc++] = strtoul(p, (char **)&p, 10); else strtoul(p, (char **)&p, 10); if (*p == '+') p++; }
+      ll = (size_t)(p - label);
+      fp = open_memstream(&cur, &cl); fo = open_memstream(&offs, &ol);
+      rd_core(fp, f[1], buf, n, cuts, nc, fo); fclose(fp); fclose(fo);
+      printf("%s%.*s=%c:%s", first ? "" : " ", (int)ll, label, strcmp(cur, ref) ? 'D' : 'S', offs);
+      if (strcmp(cur, ref) && !firstbad) { firstbad = (char *)malloc(cl + ll + 64); sprintf(firstbad, " || %.*s %s", (int)ll, label, cur); }
+      free(cur); free(offs); cur = offs = NULL; first = 0;
+      if (*p == '/') p++;
+    }
+  }
+  if (firstbad) { fputs(firstbad, stdout); free(firstbad); }
+  putchar('\n');
+  free(ref); free(buf);
 }
 
 /* ---------------------------------------------------------------- TurboJPEG */
@@ -336,6 +428,71 @@ static void do_xf(char **f, int nf)
   free(src); free(dicc);
 }
 
+/* xfh api steps srchex : a HISTORY on one TurboJPEG handle / one jpeg_decompress_struct.
+   steps = comma list of  t<opt>.<copynone>  (transform with that copy option)  |  h<savemarkers> (header read) */
+static void do_xfh(char **f, int nf)
+{
+  unsigned char *src; size_t n; const char *p;
+  if (nf < 4) { puts("err usage"); return; }
+  src = unhex(f[3], &n);
+  fputs("ok", stdout);
+  if (!strcmp(f[1], "tj")) {
+    tjhandle h = tj3Init(TJINIT_TRANSFORM);
+    for (p = f[2]; *p; ) {
+      if (*p == 't') {
+        int opt = (int)strtol(p + 1, (char **)&p, 10), cn = 0; tjtransform t; unsigned char *dst = NULL; size_t dn = 0;
+        if (*p == '.') cn = (int)strtol(p + 1, (char **)&p, 10);
+        memset(&t, 0, sizeof(t)); t.op = TJXOP_NONE; t.options = cn ? TJXOPT_COPYNONE : 0;
+        if (tj3Set(h, TJPARAM_SAVEMARKERS, opt) < 0 || tj3Transform(h, src, n, 1, &dst, &dn, &t) < 0) fputs(" -", stdout);
+        else { putchar(' '); puthex(dst, dn); }
+        tj3Free(dst);
+      } else if (*p == 'h') {
+        int sm = (int)strtol(p + 1, (char **)&p, 10);
+        tj3Set(h, TJPARAM_SAVEMARKERS, sm);
+        tj3DecompressHeader(h, src, n);
+      } else break;
+      if (*p == ',') p++;
+    }
+    tj3Destroy(h);
+  } else {
+    struct jpeg_decompress_struct d; struct jpeg_compress_struct c; struct jpeg_error_mgr je, je2;
+    unsigned char *out = NULL; unsigned long outsz = 0; int have_c = 0;
+    d.err = jpeg_std_error(&je); je.error_exit = my_exit; je.emit_message = my_emit; je.output_message = my_output;
+    c.err = jpeg_std_error(&je2); je2.error_exit = my_exit; je2.emit_message = my_emit; je2.output_message = my_output;
+    if (setjmp(jb)) { printf(" err %d\n", last_err); if (have_c) jpeg_destroy_compress(&c); jpeg_destroy_decompress(&d); free(out); free(src); return; }
+    jpeg_create_decompress(&d);
+    for (p = f[2]; *p; ) {
+      if (*p == 't') {
+        int opt = (int)strtol(p + 1, (char **)&p, 10); jvirt_barray_ptr *coefs;
+        if (*p == '.') strtol(p + 1, (char **)&p, 10);
+        jpeg_mem_src(&d, src, (unsigned long)n);
+        jcopy_markers_setup(&d, (JCOPY_OPTION)opt);
+        jpeg_read_header(&d, TRUE);
+        coefs = jpeg_read_coefficients(&d);
+        jpeg_create_compress(&c); have_c = 1;
+        jpeg_copy_critical_parameters(&d, &c);
+        out = NULL; outsz = 0; jpeg_mem_dest(&c, &out, &outsz);
+        jpeg_write_coefficients(&c, coefs);
+        jcopy_markers_execute(&d, &c, (JCOPY_OPTION)opt);
+        jpeg_finish_compress(&c);
+        jpeg_destroy_compress(&c); have_c = 0;
+        jpeg_finish_decompress(&d);
+        putchar(' '); puthex(out, outsz); free(out); out = NULL;
+      } else if (*p == 'h') {
+        strtol(p + 1, (char **)&p, 10);
+        jpeg_mem_src(&d, src, (unsigned long)n);
+        jpeg_save_markers(&d, JPEG_APP0 + 2, 0xFFFF);
+        jpeg_read_header(&d, TRUE);
+        jpeg_abort_decompress(&d);
+      } else break;
+      if (*p == ',') p++;
+    }
+    jpeg_destroy_decompress(&d);
+  }
+  putchar('\n');
+  free(src);
+}
+
 int main(void)
 {
   char *line = NULL; size_t cap = 0; ssize_t len;
@@ -348,8 +505,10 @@ int main(void)
     if (!strcmp(f[0], "jc")) do_jc(f, nf);
     else if (!strcmp(f[0], "tjc")) do_tjc(f, nf);
     else if (!strcmp(f[0], "rd")) do_rd(f, nf);
+    else if (!strcmp(f[0], "rds")) do_rds(f, nf);
     else if (!strcmp(f[0], "tjrd")) do_tjrd(f, nf);
     else if (!strcmp(f[0], "xf")) do_xf(f, nf);
+    else if (!strcmp(f[0], "xfh")) do_xfh(f, nf);
     else puts("-");
     fflush(stdout);
   }
